@@ -88,13 +88,19 @@ class RecordingStream:
             out = b""
         elif fault == "empty":
             out = b""
+        elif isinstance(fault, (list, tuple)) and fault[0] == "short" and n > 1 and len(self.data) - self.pos >= 1:
+            # directed short read: exactly fault[1] bytes (clipped to 1..n-1 and to what is left)
+            k = max(1, min(int(fault[1]), n - 1, len(self.data) - self.pos))
+            out = self.data[self.pos : self.pos + k]
+            self.pos += k
+            fault = "short"
         elif fault == "short" and n > 1 and len(self.data) - self.pos >= 1:
             avail = min(n - 1, len(self.data) - self.pos)
             k = 1 if self.rng is None else self.rng.randint(1, avail)
             out = self.data[self.pos : self.pos + k]
             self.pos += k
         else:
-            if fault in ("short",):
+            if fault in ("short",) or isinstance(fault, (list, tuple)):
                 fault = None  # not applicable here
             out = self.data[self.pos : self.pos + n]
             self.pos += len(out)
